@@ -612,7 +612,14 @@ where
         let mut buf = ReadBuf::new(msg.as_mut());
         self.sock
             .try_recv_buf_from(&mut buf)
-            .map(|(bytes_read, addr)| (msg, addr, bytes_read))
+            .map(|(bytes_read, addr)| {
+                // Hand on only the octets that were actually received, not
+                // the unused remainder of the receive buffer.
+                let mut exact = self.buf.create_sized(bytes_read);
+                exact.as_mut()[..bytes_read]
+                    .copy_from_slice(&msg.as_ref()[..bytes_read]);
+                (exact, addr, bytes_read)
+            })
     }
 }
 
